@@ -46,6 +46,7 @@ class Connection:
         self.buf = b""
 
     def feed(self, data: bytes) -> bytes:
+        self.writes = getattr(self, "writes", []) + [len(data)]      # what the client handed to the transport, write by write
         self.buf += data
         out = b""
         while len(self.buf) >= 16:
